@@ -455,26 +455,30 @@ class CommitGraph:
         chunk4_offset = chunk3_offset + len(commit_data)  # Extra Edge List
         terminator_offset = chunk4_offset + len(extra_edge_data)
 
-        # Write header
-        f.write(COMMIT_GRAPH_SIGNATURE)
-        f.write(struct.pack(">B", COMMIT_GRAPH_VERSION))
-        f.write(struct.pack(">B", self.hash_version))
-        f.write(struct.pack(">B", num_chunks))
-        f.write(struct.pack(">B", 0))  # 0 base graphs
+        # Header
+        out = COMMIT_GRAPH_SIGNATURE
+        out += struct.pack(">B", COMMIT_GRAPH_VERSION)
+        out += struct.pack(">B", self.hash_version)
+        out += struct.pack(">B", num_chunks)
+        out += struct.pack(">B", 0)  # 0 base graphs
 
-        # Write table of contents
-        f.write(CHUNK_OID_FANOUT + struct.pack(">Q", chunk1_offset))
-        f.write(CHUNK_OID_LOOKUP + struct.pack(">Q", chunk2_offset))
-        f.write(CHUNK_COMMIT_DATA + struct.pack(">Q", chunk3_offset))
+        # Table of contents
+        out += CHUNK_OID_FANOUT + struct.pack(">Q", chunk1_offset)
+        out += CHUNK_OID_LOOKUP + struct.pack(">Q", chunk2_offset)
+        out += CHUNK_COMMIT_DATA + struct.pack(">Q", chunk3_offset)
         if extra_edge_data:
-            f.write(CHUNK_EXTRA_EDGE_LIST + struct.pack(">Q", chunk4_offset))
-        f.write(b"\x00\x00\x00\x00" + struct.pack(">Q", terminator_offset))
+            out += CHUNK_EXTRA_EDGE_LIST + struct.pack(">Q", chunk4_offset)
+        out += b"\x00\x00\x00\x00" + struct.pack(">Q", terminator_offset)
 
-        # Write chunks
-        f.write(fanout_data)
-        f.write(oid_lookup_data)
-        f.write(commit_data)
-        f.write(extra_edge_data)
+        # Chunks
+        out += fanout_data + oid_lookup_data + commit_data + extra_edge_data
+
+        f.write(out)
+        # Trailer: checksum of everything above. git refuses a commit-graph
+        # without it ("improper chunk offset(s)").
+        trailer = self.object_format.new_hash()
+        trailer.update(out)
+        f.write(trailer.digest())
 
     def __len__(self) -> int:
         """Return number of commits in the graph."""
